@@ -137,6 +137,24 @@ def generate(rng, tier):
         jl = [{"bpm": F.frac_json(c["bpm"]), "met": c["met"], "m": c["m"], "b": F.frac_json(c["b"])} for c in l]
         jq = [{"m": q["m"], "b": F.frac_json(q["b"]), "met": q["met"]} for q in qs]
         r = rng.random()
+        if rng.random() < 0.3 and len(l) >= 2:
+            # tempo changes given in another order (as millisecond changes, or through BpmList.to_timing_map)
+            via = rng.choice(["offset_shuffled", "offset_shuffled", "bpmlist"])
+            kind = rng.choice(["offsets", "snaps", "beats"]) if all(c["met"] == l[0]["met"] for c in l) else rng.choice(["offsets", "snaps"])
+            ex = via != "bpmlist"
+            c = {"kind": kind, "exact": ex, "init": F.frac_json(init), "l": jl, "qs": jq, "via": via, "vseed": rng.randint(0, 10 ** 6)}
+            if kind == "snaps":
+                c["offs"] = []
+            if kind == "beats":
+                qs2 = _queries(rng, l, relgrid_only=True)
+                c["qs"] = [{"m": q["m"], "b": F.frac_json(q["b"]), "met": q["met"]} for q in qs2]
+            if not ex:
+                # float stream: bpm values with an exact beat length, integer initial offset
+                for cc, orig in zip(c["l"], l):
+                    cc["bpm"] = F.frac_json(Fr(rng.choice([60, 75, 120, 150, 240, 300])))
+                c["init"] = F.frac_json(Fr(rng.randint(-2000, 2000)))
+            cases.append(c)
+            continue
         if r < 0.3:
             cases.append({"kind": "offsets", "exact": True, "init": F.frac_json(init), "l": jl, "qs": jq})
         elif r < 0.4:
@@ -195,6 +213,19 @@ def execute(case):
         init = conv(F.frac_from_json(case["init"]))
         try:
             tm = TimingMap.from_bpm_changes_snap(init, _mk(case["l"], conv), reseat=False)
+            via = case.get("via")
+            if via:
+                # the same tempo changes handed over in millisecond form and in ANOTHER ORDER
+                import random as _r
+                from reamber.algorithms.timing.utils.BpmChangeOffset import BpmChangeOffset
+                bcos = [BpmChangeOffset(b.bpm, b.metronome, b.offset) for b in tm.bpm_changes_offset]
+                _r.Random(case.get("vseed", 0)).shuffle(bcos)
+                if via == "offset_shuffled":
+                    tm = TimingMap.from_bpm_changes_offset(bcos)
+                else:
+                    from reamber.base.lists.BpmList import BpmList
+                    from reamber.base.Bpm import Bpm
+                    tm = BpmList([Bpm(offset=float(b.offset), bpm=float(b.bpm), metronome=float(b.metronome)) for b in bcos]).to_timing_map()
             if kind == "rederive":
                 bcs = tm.bpm_changes_snap()
                 return {"v": [{"bpm": F.frac_json(Fr(b.bpm)), "met": F.frac_json(Fr(b.metronome)), "snap": _snapj(b.snap)} for b in bcs]}
